@@ -362,6 +362,16 @@ fn judge_plane(case: &Case, l: &mut Local) {
     if let Some(t) = pl.intersection_distance(&sp) {
         l.check("intersection distance lands on the plane", "", pl.signed_distance_to_point(&sp.at_distance(t)).abs() <= 1e-9 * (1.0 + t.abs()), mk, || format!("t {}", t));
     }
+    // the same triangle a thousand and a million times smaller, and much larger, at an offset: the plane has
+    // the same normal and still contains its three points
+    for (sc, off) in [(1e-3, Vector3::zeros()), (1e-6, Vector3::new(3.0, -2.0, 5.0)), (1e4, Vector3::new(-40.0, 7.0, 1.0))] {
+        l.eval();
+        let (sa, sb, scc) = (Point3::from(a.coords * sc + off), Point3::from(b.coords * sc + off), Point3::from(c.coords * sc + off));
+        let ps = Plane3::from((&sa, &sb, &scc));
+        let worst = [sa, sb, scc].iter().map(|p| ps.signed_distance_to_point(p).abs()).fold(0.0, f64::max);
+        l.bucket("plane through a scaled triple");
+        l.check("plane contains its three defining points", "scaled", worst <= 1e-9 * sc * (1.0 + off.norm() / sc * 1e-3) && (ps.normal.into_inner() - pl.normal.into_inner()).norm() <= 1e-6, mk, || format!("scale {:e}: normal {:?} vs {:?}, points off by {:e}", sc, ps.normal, pl.normal, worst));
+    }
 }
 
 pub fn judge(case: &Case, l: &mut Local) {
@@ -441,7 +451,7 @@ pub fn run(tier: Tier) -> i32 {
     let mut cx = Ctx::new("C19", tier, "exploration");
     cx.rule = "frames: every ordered pair of the 124 non-zero vectors of {-2..2}^3 (parallel pairs included) x 6 two-vector constructors x 2 origins; basis-to-isometry builders over the 24 exact signed-permutation rotations (incl. every exact half turn), general and oblique half-turn rotations x 3 origins; principal axes: every multiset of 4 and 5 points of the 3x3x3 lattice (every 4th in the quick tier) x {no weights, unit, 2x unit, pattern, 3x pattern} and every multiset of 3..5 points of the 3x3 lattice; planes: every ordered triple of the 3x3x3 lattice. distinct = distinct cases".into();
     cx.bounds = json!({"vectors": vecs().len(), "rotations": rotations().len(), "svd3_multiset_sizes": [4, 5], "svd3_subsampling": tier.pick(4, 1)});
-    cx.require(&["parallel pair", "orthogonal pair", "oblique pair", "half-turn rotation", "other rotation", "coincident point set", "collinear point set", "planar point set", "generic point set", "exactly zero singular value", "2D point set", "plane through three points"]);
+    cx.require(&["parallel pair", "orthogonal pair", "oblique pair", "half-turn rotation", "other rotation", "coincident point set", "collinear point set", "planar point set", "generic point set", "exactly zero singular value", "2D point set", "plane through three points", "plane through a scaled triple"]);
     cx.assume("axes are compared per axis up to sign where the singular-value gap exceeds 1e-6, singular values and centres always; weighted singular values are not given a variance meaning");
     let cs = cases(tier);
     let l = sweep(&cs, judge);
